@@ -4,3 +4,24 @@ package nc
 var Registry = map[string]func(p *Prog, r *Run){}
 
 func register(id string, f func(p *Prog, r *Run)) { Registry[id] = f }
+
+// ThoroughDeps lists, per property, the properties whose obligations it relies
+// on. The thorough tier re-evaluates them in the same run (their obligation
+// ids appear under the property being checked), on top of loading the full
+// syntax of all dependencies so that library bodies are part of the call graph.
+var ThoroughDeps = map[string][]string{
+	"C01": {"C03", "C04", "C05", "C06", "C11"},
+	"C02": {"C09", "C08", "C10"},
+	"C03": {"C05"},
+	"C04": {"C06"},
+	"C05": {"C03"},
+	"C09": {"C02"},
+	"C10": {"C06", "C08", "C09"},
+	"C11": {"C06"},
+	"C12": {"C11", "C18"},
+	"C13": {"C12"},
+	"C15": {"C18", "C06"},
+	"C16": {"C01", "C02", "C03"},
+	"C17": {"C16"},
+	"C20": {"C19"},
+}
